@@ -448,6 +448,7 @@ func runC21(c *Ctx) []Obligation {
 	)
 	out = append(out, queueWriteBack(c, P)...)
 	out = append(out, nodesIndexOnStake(c, P)...)
+	out = append(out, powerRankKeyLayout(c, P)...)
 	return out
 }
 
